@@ -1,12 +1,29 @@
 #!/usr/bin/env python3
 """Prints a markdown table of /verif/seeded/*/meta.json (for DESIGN.md §11)."""
-import json, glob, os
+import json, glob, re
 rows = []
+caught = missed = superseded = 0
 for m in sorted(glob.glob('/verif/seeded/*/meta.json')):
     d = json.load(open(m))
     c = d['confirmed']; f = d['framework']
-    first = d['needs_to_manifest'].split('\n')[0][:150].replace('|', '/')
-    rows.append(f"| {d['id']} | {d['property']} | {first} | {c['demo_without_change']}/{c['demo_with_change']} | {c['pinned_suite_with_change'][:60]} | {'**caught**' if f['detected'] else 'MISSED'} ({f['seconds']} s) | `{f['first_signature'][:60]}` |")
-print("| id | property | change (first line of notes) | demo without/with | pinned suite with change | ./check quick | first signature |")
-print("|---|---|---|---|---|---|---|")
+    first = d['needs_to_manifest'].split('\n')[0][:170].replace('|', '/')
+    first = re.sub(r'^(C\d\d\s*[/-]*\s*)?[Cc]hange [a-d]\s*[-:(]*\s*', '', first).strip()
+    suite = re.sub(r'Summary \[\s*[\d.]+s\]\s*', '', c['pinned_suite_with_change'])[:48]
+    earlier = d.get('earlier_runs', [])
+    hist = ''
+    if earlier:
+        hist = ' (earlier: ' + ', '.join('caught' if e.get('detected') else 'missed' for e in earlier) + ')'
+    if d.get('status') == 'superseded':
+        verdict = 'superseded, see note'
+        superseded += 1
+    elif f['detected']:
+        verdict = '**caught**'
+        caught += 1
+    else:
+        verdict = 'MISSED'
+        missed += 1
+    rows.append(f"| {d['id']} | {first} | {c['demo_without_change']}/{c['demo_with_change']} | {suite} | {verdict} ({f['seconds']} s){hist} | `{f['first_signature'][:70]}` |")
+print("| id | change (first line of the seeding agent's notes) | demo without/with | pinned suite with change | `./check <id> quick` | first signature |")
+print("|---|---|---|---|---|---|")
 print('\n'.join(rows))
+print(f"\ncaught {caught}, missed {missed}, superseded {superseded} of {len(rows)}")
